@@ -160,6 +160,10 @@ def parse_test(repo: Repo, m: Module, test: ast.expr, br: Branch) -> bool:
         return True
     if isinstance(test, ast.Compare) and len(test.ops) == 1:
         left, op, right = test.left, test.ops[0], test.comparators[0]
+        # `"H" == tag`, `ops.CNOT is type(op)`: equality and identity are symmetric — put the subject on the left
+        if isinstance(op, (ast.Eq, ast.Is)) and (isinstance(left, ast.Constant) or _type_subject(right) is not None) \
+                and not isinstance(right, ast.Constant) and _type_subject(left) is None:
+            left, right = right, left
         ts = _type_subject(left)
         if ts is not None and isinstance(op, ast.In) and isinstance(right, (ast.Name, ast.Attribute)):
             # membership in a class-level / module-level table of classes: `type(op) in self._table`
